@@ -57,16 +57,23 @@ LIT_INVS = ['Total', 'DeclaredDefaultsFit', 'NullIffNullable', 'ForeignNeedsImpo
 LIT_SHARDS = {'exlit': 4, 'attr': 2, 'docref': 16, 'annot': 8, 'anndef': 1, 'badtype': 1}
 
 
-def lit_stage(rep, prop, modes):
-    """StoneLitMC: example expressions x field types, route attribute values x schema declarations, doc references x sites."""
+def lit_stage(rep, prop, modes, quick=False):
+    """StoneLitMC: example expressions x field types, route attribute values x schema declarations, doc references x sites, ...
+    All modes run in one pool.  quick: doc references only in the docstrings of structs and routes (the shards of those sites)."""
+    jobs = []
     for mode in modes:
         nsh = LIT_SHARDS[mode]
-        res = run_shards('StoneLitMC',
-                         lambda s: dict(spec='Spec', constants={'Mode': '"%s"' % mode, 'Shard': s, 'NShards': nsh, 'EmitVectors': True},
-                                        invariants=LIT_INVS, constraints=['InShard', 'Emit']),
-                         list(range(nsh)), 'litcheck.LitJudge', {'prop': prop}, tlc_kwargs={'timeout': 3000})
-        agg = merge(res)
-        rep.add_tlc('StoneLitMC/' + mode, agg, {'Mode': mode})
+        shards = list(range(nsh))
+        if quick and mode == 'docref':
+            shards = [0, 3, 4, 7, 8, 11, 12, 15]        # Hash = site + 4 * tag: sites struct (0) and route (3), every tag
+        jobs += [(mode, sh, nsh) for sh in shards]
+    res = run_shards('StoneLitMC',
+                     lambda j: dict(spec='Spec', constants={'Mode': '"%s"' % j[0], 'Shard': j[1], 'NShards': j[2], 'EmitVectors': True},
+                                    invariants=LIT_INVS, constraints=['InShard', 'Emit']),
+                     jobs, 'litcheck.LitJudge', {'prop': prop}, tlc_kwargs={'timeout': 3000})
+    for mode in modes:
+        agg = merge([r for r, j in zip(res, jobs) if j[0] == mode])
+        rep.add_tlc('StoneLitMC/' + mode, agg, {'Mode': mode, 'shards': [j[1] for j in jobs if j[0] == mode], 'of': LIT_SHARDS[mode]})
         rep.add_judged(agg)
 
 
@@ -86,7 +93,7 @@ def _run(prop, tier, replay, text, quick_frac):
         else:
             # C11 quick: a seeded subset of the instance shards of every scenario, 18 layouts each
             nsh = 16 * quick_frac
-            shards = sorted(rng.sample(range(nsh), 16 // len(SCENARIOS) + 1))
+            shards = sorted(rng.sample(range(nsh), 2))
             mode = 'two'
         jobs += [(scen, s, nsh, mode) for s in shards]
     res = run_shards('StoneSemMC', lambda j: _cfg(j[0], j[1], j[2], j[3], wf), jobs, 'semcheck.SemJudge',
@@ -99,7 +106,7 @@ def _run(prop, tier, replay, text, quick_frac):
                                                 'shards': [j[1] for j in mine], 'of': mine[0][2]})
         rep.add_judged(agg)
     if prop == 'C01':
-        lit_stage(rep, 'C01', ('exlit', 'attr', 'docref', 'annot', 'anndef', 'badtype'))
+        lit_stage(rep, 'C01', ('exlit', 'attr', 'docref', 'annot', 'anndef', 'badtype'), quick=(tier == 'quick'))
     if prop == 'C11':
         # layout: comments, blank lines, trailing whitespace/comments, broken parenthesised lists.  StoneLex proves
         # (TLC, LayoutInvariance) that the line machine OpLex ignores them; here the real Lexer is bound to OpLex.
